@@ -19,7 +19,7 @@ MANIFEST = {
     "jsrt": True,
 }
 
-THEOREMS = ["C06_guard_sound", "C06_path_relates_values", "C06_covers_descends"]
+THEOREMS = ["C06_guard_sound", "C06_guard_sound_literals", "C06_path_relates_values", "C06_covers_descends"]
 
 
 def check_results(res, results, label):
